@@ -18,7 +18,7 @@ from mc.lexer import LexError, lex
 from pypika_tortoise import AliasedQuery, Field, Query, Table
 from pypika_tortoise import functions as FN
 from pypika_tortoise.enums import JoinType
-from pypika_tortoise.terms import SystemTimeValue
+from pypika_tortoise.terms import Case, SystemTimeValue, Tuple
 
 PROPERTY = "C11"
 
@@ -35,7 +35,11 @@ class Src:
             self.obj = Table(key)
             self.aliased = False
         elif shape == "aliased":
-            self.obj = Table("base_" + key, alias=key)
+            # a table that was in use (hashed, compared, printed) before it was renamed: nothing memoised on the un-aliased
+            # object may travel into the copy
+            t0 = Table("base_" + key)
+            {t0: 1}, t0 == t0, str(t0)
+            self.obj = t0.as_(key)
             self.aliased = True
         elif shape == "schema":
             self.obj = Table(key, schema="sch")
@@ -49,6 +53,10 @@ class Src:
         elif shape == "subquery_auto":
             self.obj = Q.from_(Table("in_" + key)).select("a", "b")
             self.aliased = True  # receives sqN when used as a source
+        elif shape == "subquery_auto_nested":
+            # an un-aliased subquery whose own FROM is an un-aliased subquery over an un-aliased subquery
+            self.obj = Q.from_(Q.from_(Q.from_(Table("in_" + key)).select("a", "b")).select("a", "b")).select("a", "b")
+            self.aliased = True
         elif shape == "cte":
             q_holder[0] = q_holder[0].with_(Q.from_(Table("in_" + key)).select("a", "b"), key)
             self.obj = AliasedQuery(key)
@@ -59,7 +67,7 @@ class Src:
         elif shape == "setop_auto":
             self.obj = Q.from_(Table("in_" + key)).select("a").union(Q.from_(Table("in2_" + key)).select("a"))
             self.aliased = True  # receives sqN when used as a source
-        self.is_subquery = shape in ("subquery", "subquery_auto")
+        self.is_subquery = shape in ("subquery", "subquery_auto", "subquery_auto_nested")
 
     def f(self, role):
         return Field("%s__%s" % (self.key, role), table=self.obj)
@@ -78,11 +86,24 @@ def select_cases():
                     if foreign and n > 1:
                         continue
                     yield {"k": "select", "shapes": list(shapes), "combine": combine, "foreign": foreign}
+    # several automatically named subqueries in one statement (plain and nested), in every mix of from_() and join()
+    AUTO = ("subquery_auto", "subquery_auto_nested", "setop_auto")
+    for n in (2, 3):
+        for shapes in itertools.product(AUTO, repeat=n):
+            for combine in ("join", "from_list", "from_then_join"):
+                yield {"k": "select", "shapes": list(shapes), "combine": combine, "foreign": False}
+        for shapes in itertools.product(AUTO, repeat=n):
+            yield {"k": "select", "shapes": ["plain"] + list(shapes), "combine": "join", "foreign": False}
     for sh in SHAPES:
-        yield {"k": "correlated", "shapes": [sh]}
+        for slot in SLOTS:
+            yield {"k": "correlated", "shapes": [sh], "slot": slot}
     for order in ("inner_first", "outer_first"):
         for col in ("same", "different"):
-            yield {"k": "correlated_self", "shapes": ["plain"], "order": order, "col": col}
+            for via in ("ctor", "as_after_use"):
+                yield {"k": "correlated_self", "shapes": ["plain"], "order": order, "col": col, "via": via}
+    for first in ("lookup_on_base", "no_lookup"):
+        for naming in ("auto", "as_"):
+            yield {"k": "derived_sources", "shapes": ["plain"], "first": first, "naming": naming}
 
 
 def dml_cases():
@@ -108,7 +129,34 @@ def expand(chunk):
         yield dict(c, d=chunk["d"])
 
 
-KEYS = ["s1", "s2", "s3"]
+KEYS = ["s1", "s2", "s3", "s4"]
+
+# where the reference to the outer query's table sits inside the correlated subquery's WHERE (own column, outer column)
+SLOTS = {
+    "eq": lambda i, o: i == o,
+    "eq_swapped": lambda i, o: o == i,
+    "between_lo": lambda i, o: i.between(o, 50),
+    "between_hi": lambda i, o: i.between(1, o),
+    "period": lambda i, o: i.from_to(o, 9),
+    "isin_member": lambda i, o: i.isin([1, o]),
+    "isin_tuple": lambda i, o: Tuple(i, 1).isin([Tuple(o, 2)]),
+    "fn_arg": lambda i, o: FN.Coalesce(o, 1) == i,
+    "fn_nested": lambda i, o: i == FN.Abs(FN.Coalesce(None, o)),
+    "case_then": lambda i, o: Case().when(i == 1, o).else_(0) > 0,
+    "case_when": lambda i, o: Case().when(o == 1, i).else_(0) > 0,
+    "case_else": lambda i, o: Case().when(i == 1, 2).else_(o) > 0,
+    "arith": lambda i, o: i == o + 1,
+    "arith_deep": lambda i, o: i == (2 * (o - 1)) / 3,
+    "neg": lambda i, o: i == -o,
+    "not": lambda i, o: (i == o).negate(),
+    "nested_or": lambda i, o: (i > 0) & ((i < 1) | (i == o)),
+    "chain3": lambda i, o: ((i > 0) & (i < 9)) & (i == o),
+    "chain4_inner": lambda i, o: (((i > 0) & (i == o)) & (i < 9)) & (i != 5),
+    "isnull_or": lambda i, o: i.isnull() | o.isnull(),
+    "like": lambda i, o: i.like(o),
+    "bitwiseand": lambda i, o: (i + o).bitwiseand(3),
+    "agg_filter": lambda i, o: i == FN.Coalesce(i, o),
+}
 _LAST_SRCS = []
 
 
@@ -138,6 +186,10 @@ def build(case, Q):
         if case["combine"] == "from_list":
             for s in srcs[1:]:
                 q = q.from_(s.obj)
+        elif case["combine"] == "from_then_join":
+            q = q.from_(srcs[1].obj)
+            for s in srcs[2:]:
+                q = q.join(s.obj, JoinType.left).on(a.f("on") == s.f("on"))
         elif case["combine"] in ("join", "join_using"):
             for i, s in enumerate(srcs[1:]):
                 j = q.join(s.obj, JoinType.left if i else JoinType.inner)
@@ -162,7 +214,7 @@ def build(case, Q):
     if k == "correlated":
         a = srcs[0]
         outer = Table("outer1")
-        inner = q.from_(a.obj).select(a.f("sel")).where(a.f("whr") == outer.field("outer1__corr"))
+        inner = q.from_(a.obj).select(a.f("sel")).where(SLOTS[case.get("slot", "eq")](a.f("whr"), outer.field("outer1__corr")))
         stmt = Q.from_(outer).select(outer.field("outer1__sel")).where(outer.field("outer1__whr").isin(inner))
         expect(srcs, ["sel", "whr"], True)  # the inner query refers to a table outside its own sources
         exp["outer1__corr"] = (True, "outer1")
@@ -172,7 +224,11 @@ def build(case, Q):
     if k == "correlated_self":
         # the inner source is the outer table under an alias: same table name, same column name on both sides
         outer = Table("emp")
-        inner_t = Table("emp", alias="e2")
+        if case.get("via") == "as_after_use":
+            {outer: 1}, outer == outer, str(outer), str(Q.from_(outer).select(outer.star).where(outer.x > 0))
+            inner_t = outer.as_("e2")
+        else:
+            inner_t = Table("emp", alias="e2")
         c_in = Field("e2__whr", table=inner_t)
         c_out = Field("e2__whr" if case["col"] == "same" else "emp__corr", table=outer)
         crit = (c_in == c_out) if case["order"] == "inner_first" else (c_out == c_in)
@@ -186,6 +242,21 @@ def build(case, Q):
             exp["emp__corr"] = (True, "emp")
         exp["emp__sel"] = (False, None)
         exp["emp__whr"] = (False, None)
+        return stmt, exp
+    if k == "derived_sources":
+        # two row sources derived from one base query (possibly after a column of the base was looked up): a reference
+        # taken from one of them must be qualified by exactly that source; the same column names are used on both
+        bt = Table("basetab")
+        base = Q.from_(bt).select(bt.field("id"), bt.field("grp"), bt.field("val"))
+        if case["first"] == "lookup_on_base":
+            base.id, base.grp, base["dsh__sel"], base["dsh__on"], base["dsh__whr"]
+        lo = base.where(bt.val < 10)
+        hi = base.where(bt.val >= 10)
+        if case["naming"] == "as_":
+            lo, hi = lo.as_("d1"), hi.as_("d2")
+        stmt = (Q.from_(lo).join(hi).on(lo["dsh__on"] == hi["dsh__on"]).select(lo["dsh__sel"], hi["dsh__sel"])
+                .where(lo["dsh__whr"] > hi["dsh__whr"]))
+        case["_names"] = [lo.alias, hi.alias]
         return stmt, exp
     t = srcs[0]
     if k == "insert":
@@ -241,11 +312,13 @@ def run_case(case):
     try:
         stmt, exp = build(case, Q)
     except Exception as e:
-        res.extra["disabled"] = 1
-        res.extra.setdefault("disabled_kinds", set()).add("%s:%s" % (case["k"], type(e).__name__))
+        # every program of the menu is valid (none is rejected on the reference tree)
+        res.nontrivial = 1
+        res.violate("C11|%s|build-raises|%s" % (case["k"], type(e).__name__), "a valid statement of the menu was rejected while it was built",
+                    case={k_: v_ for k_, v_ in case.items() if not k_.startswith("_")}, error=str(e)[:200])
         return res
     res.nontrivial = 1
-    res.states.append(h64(repr(sorted((k, str(v)) for k, v in case.items() if k != "d"))))
+    res.states.append(h64(repr(sorted((k, str(v)) for k, v in case.items() if k != "d" and not k.startswith("_")))))
     for param in (False, True):
         res.transitions += 1
         try:
@@ -305,6 +378,15 @@ def run_case(case):
             if sorted(map(str, quals)) != ["e2", "emp"]:
                 res.violate("C11|correlated_self|whr|unqualified|same-name", "the outer table's column in a self-correlated subquery is not "
                             "qualified by the outer table (qualifiers found: %s)" % quals, case=case, sql=sql)
+        if case["k"] == "derived_sources":
+            names = case.get("_names")
+            for col in ("dsh__on", "dsh__sel", "dsh__whr"):
+                quals = [toks[i - 2].value if (i >= 2 and toks[i - 1].kind == "OP" and toks[i - 1].text == "." and toks[i - 2].kind == "ID") else None
+                         for i, t in enumerate(toks) if t.kind == "ID" and t.value == col]
+                if quals != names:
+                    res.violate("C11|derived_sources|%s|wrong-qualifier" % col.split("__")[1],
+                                "references taken from two sources derived from one base query are qualified %s, expected %s" % (quals, names),
+                                case={k_: v_ for k_, v_ in case.items() if not k_.startswith("_")}, sql=sql)
         # distinct row sources must be exposed under distinct names
         if case["k"] == "select" and not param:
             names = [s_.display() for s_ in _LAST_SRCS]
